@@ -73,7 +73,9 @@ class Peer:
         if d["ptype"] == rpc.BIND:
             a = d["auth"]
             self.auth_type = a["type"]
-            self.ctx = secctx.ntlm_server() if self.mode == "ntlm" else secctx.ScriptedContext(list(getattr(self, "server_tokens", [b"SRV1"])), self.sig, role="server")
+            self.ctx = secctx.ntlm_server() if self.mode == "ntlm" else secctx.ScriptedContext(list(getattr(self, "server_tokens", [b"SRV1"])), getattr(self, "reply_sig", None) or self.sig, role="server")
+            if getattr(self, "reply_sig", None) and self.mode != "ntlm":
+                self.ctx.peer_sig_size = self.sig
             tok = self.ctx.step(a["token"])
             flags = 3
             if d["flags"] & rpc.PFC_SIGN and self.sign:
@@ -130,6 +132,7 @@ def exchange(api: str, peer: Peer, stub: bytes, vt, ctx_id: int = 0, opnum: int 
         c_ = secctx.ScriptedContext([b"CLI%d" % (i + 1) for i in range(legs)], peer.sig, complete_after=getattr(peer, "client_complete_after", None))
         c_.fail_wrap_at = dict(getattr(peer, "client_wrap_failures", {}))
         c_.provisional_sig_size = getattr(peer, "client_provisional", None)
+        c_.peer_sig_size = getattr(peer, "reply_sig", None)
         c_.strict_completion = True
         return c_
 
@@ -250,7 +253,7 @@ def check_reply(acc, case, peer: Peer, cctx, r) -> None:
         if len(cctx.unwraps) != 1:
             return bad("unwrap-count", n=len(cctx.unwraps))
         Wr = peer.sealed_reply
-        T = len(Wr) - peer.sig - 8
+        T = len(Wr) - (getattr(peer, "reply_sig", None) or peer.sig) - 8  # the reply's own signature length (its auth_length)
         ty = siov.BufferType.sign_only if peer.sign_header else siov.BufferType.data_readonly
         want = [(ty, Wr[:24]), (siov.BufferType.data, Wr[24:T]), (ty, Wr[T : T + 8]), (siov.BufferType.header, Wr[T + 8 :])]
         if cctx.unwraps[0]["iov"] != want:
@@ -342,6 +345,26 @@ def run_shard(shard, tier, seed, acc) -> None:
                         n += 1
                         continue
                     check_request(acc, case, peer, cctx, stub, vt_name, 0, 0)
+                    check_reply(acc, case, peer, cctx, r)
+                    n += 1
+        # (c) a mechanism whose announced signature size is a MAXIMUM: the peer's replies carry shorter signatures (auth_length of the reply
+        #     says how long) - the reply is located and verified by what it carries
+        for sig in SIZES:
+            for short in (4, 12, sig - 1):
+                if not 0 < short < sig:
+                    continue
+                for ln in (0, 1, 16, 33):
+                    stub = d.bytes(ln)
+                    peer = Peer("scripted", sig, True)
+                    peer.reply_sig = sig - short
+                    case = ["provider-shapes", api, "shorter-reply-signature", sig, short, ln]
+                    try:
+                        r, cctx = exchange(api, peer, stub, vts()["isd"], 0, 0)
+                    except Exception as e:  # noqa: BLE001
+                        acc.violate(f"shorter-reply-signature.exc.{type(e).__name__}", case, {"exc": repr(e)}, size=ln)
+                        n += 1
+                        continue
+                    check_request(acc, case, peer, cctx, stub, "isd", 0, 0)
                     check_reply(acc, case, peer, cctx, r)
                     n += 1
         for ln in (0, 5, 16):
